@@ -88,7 +88,8 @@ NextMC == \E op \in OpsOf(st) :
             /\ hist' = <<op>>          \* the operation just taken (for the action properties); not part of the view
 SpecMC == Init /\ [][NextMC]_vars
 \* the last operation is bookkeeping of the judge, not part of the document state
-MCView == [st EXCEPT !.last = NoOp, !.lastok = FALSE]
+\* (nor is the set of past requests, which only names the state class of a witness)
+MCView == [st EXCEPT !.last = NoOp, !.lastok = FALSE, !.past = [d \in 1..ND |-> {}]]
 
 NextGen == /\ Len(hist) < Depth
            /\ \E op \in OpsOf(st) :
